@@ -19,7 +19,9 @@ function makeSer(opts) {
       case 'symbol': return 'S(' + (v.description === undefined ? '' : JSON.stringify(v.description)) + ')';
       case 'function': {
         if (fnNames) { let n; try { n = Object.getOwnPropertyDescriptor(v, 'name'); n = n && typeof n.value === 'string' ? n.value : '?'; } catch (e) { n = '?'; } return 'fn:' + n; }
-        return 'fn';
+        // scopegen gives functions and classes an own `$id` so that a reference identifies its declaration
+        let id; try { const d = Object.getOwnPropertyDescriptor(v, '$id'); id = d && typeof d.value === 'number' ? d.value : undefined; } catch (e) {}
+        return id === undefined ? 'fn' : 'fn#' + id;
       }
     }
     if (v === null) return 'n';
@@ -184,6 +186,7 @@ async function run(req, current) {
 
   try {
     const f = files[req.entry];
+    if (req.prelude) vm.runInContext(req.prelude, ctx, { filename: 'prelude.js' });
     if (req.kind === 'module') {
       let m;
       try { m = await getESM('/', req.entry); } catch (e) { term = errTerm(st, e, 'syntax'); m = null; }
